@@ -53,6 +53,43 @@ def p_lossless(t):
     return None
 
 
+def p_fresh(t):
+    """every call returns its own mapping: what a caller does to one result (add, delete, overwrite) is not seen in
+    the result of the next call on the same text, nor in the other paragraphs of one document"""
+    try:
+        d1 = debcon.get_paragraph_data(t)
+        snap = dict(d1)
+        d1['x-added'] = 'y'
+        for k in list(d1)[:2]:
+            d1[k] = 'overwritten'
+        for k in list(d1)[:1]:
+            del d1[k]
+        d2 = debcon.get_paragraph_data(t)
+        if dict(d2) != snap:
+            return 'get_paragraph_data: changing the mapping returned by one call changes the next call: %r, first %r' % (dict(d2), snap)
+        l1 = list(debcon.get_paragraphs_data(t + '\n\n' + t))
+        snap = [dict(x) for x in l1]
+        if l1:
+            l1[0].clear()
+            l1[0]['zz'] = '1'
+            if [dict(x) for x in l1[1:]] != snap[1:]:
+                return 'get_paragraphs_data: changing the first paragraph changes a later one'
+        l2 = list(debcon.get_paragraphs_data(t + '\n\n' + t))
+        if [dict(x) for x in l2] != snap:
+            return 'get_paragraphs_data: changing a returned paragraph changes the next call: %r, first %r' % (l2, snap)
+        if t.strip():
+            o1 = debcon.Debian822(t)
+            snap = o1.to_dict()
+            for k in list(o1)[:1]:
+                del o1[k]
+            o1['zz'] = '1'
+            if debcon.Debian822(t).to_dict() != snap:
+                return 'Debian822(text): changing one object changes the next one built from the same text'
+    except Exception as e:  # noqa
+        return 'raises %s' % type(e).__name__
+    return None
+
+
 def embedded_signed(rng):
     """a well-formed clear-signed block with text before and/or after it: not an envelope around the whole text"""
     body = '\n'.join(G.words_line(rng) for _ in range(rng.randint(1, 3)))
@@ -118,6 +155,7 @@ def run(ctx):
     texts += [G.unicode_text(rng, 40) for _ in range(ctx.n(1000, 20000))]
     texts += ['From foo\na: 1\n', 'a: 1\na: 2\na: 1\n', 'a: 1\n\nFrom x\nb: 2\n', 'a:1', 'A:b:c d\n', ':x\na: 1\n', ' c\na: 1\n']
     fails = ctx.prop('prop:lossless', texts, p_lossless)
+    fails += ctx.prop('prop:fresh-results', [t for t in texts if t.strip()][::max(1, len(texts) // ctx.n(3000, 30000))], p_fresh)
     # repeated names: all patterns of length <= 5 over 2 names x 2 values, then random
     import itertools
     pats = []
